@@ -653,6 +653,48 @@ def _next_stmt(node):
 
 
 # -- C17-f -----------------------------------------------------------------------------------
+def _not_a_flow(call):
+    """The iterator handed to next() is, through the function's own once-bound locals, a generator expression / range /
+    reversed / enumerate / zip over values none of which is a parameter called `flow` (nor an attribute of self, nor anything
+    the function does not define): it iterates something the function built itself, not the data flow."""
+    fn = A.enclosing_func(call)
+    if fn is None or not call.args:
+        return False
+    params = set(A.func_params(fn))
+    seen = set()
+    todo = [call.args[0]]
+    steps = 0
+    while todo and steps < 50:
+        steps += 1
+        e = todo.pop()
+        for n in ast.walk(e):
+            if isinstance(n, ast.Attribute) and isinstance(n.value, ast.Name) and n.value.id == "self":
+                return False
+            if not isinstance(n, ast.Name) or not isinstance(n.ctx, ast.Load) or n.id in seen:
+                continue
+            seen.add(n.id)
+            if n.id in params:
+                if n.id in ("flow", "self"):
+                    return False
+                continue
+            # comprehension variables of the expressions themselves
+            defs = [a for a in A.walk_local(fn) if isinstance(a, ast.Assign) and any(n.id in A.target_names(t) for t in a.targets)]
+            comp_vars = {x for g in ast.walk(fn) if isinstance(g, ast.comprehension) for x in A.target_names(g.target)}
+            if n.id in comp_vars and not defs:
+                continue
+            if len(defs) == 1 and len(defs[0].targets) == 1 and isinstance(defs[0].targets[0], ast.Name):
+                todo.append(defs[0].value)
+                continue
+            if n.id in ("range", "reversed", "enumerate", "zip", "len", "isinstance", "iter", "sorted", "list", "tuple") or "." in n.id:
+                continue
+            # a module-level name (a class, a module): not a flow
+            if not defs and not any(isinstance(x, (ast.For, ast.With)) and n.id in [y for t in A.assigned_targets(x) for y in A.target_names(t)]
+                                    for x in A.walk_local(fn)):
+                continue
+            return False
+    return steps < 50
+
+
 def check_exhaustion(ctx):
     res = ctx.res
     n = 0
@@ -667,6 +709,9 @@ def check_exhaustion(ctx):
                 continue
             d = c.args[1]
             const = isinstance(d, ast.Constant) or (isinstance(d, (ast.Tuple, ast.List, ast.Dict)) and not getattr(d, "elts", getattr(d, "keys", None)))
+            if const and _not_a_flow(c):
+                ctx.ok("C17-f", c, "`%s`: the iterator is built in the function from indices/elements of a sequence argument, not from a flow" % A.short(c, 50))
+                continue
             if const:
                 ctx.violation("C17-f", c, "`%s` marks the end of the iterator by the value %s, which a flow may contain: a flow value equal to "
                               "it is taken for the end of the flow (the rest is silently lost)" % (A.short(c, 60), A.src(d)),
